@@ -208,6 +208,28 @@ def native_io(tier='quick', seed=0):
                 b.fromfile(fh, k)
             if b.tolist() != vals[:k]:
                 fails.append({'call': f"Array('uint16').fromfile(f, {k}) of {vals}", 'observed': b.tolist(), 'python': "FAILS = True"})
+            p_odd = os.path.join(tmp, 'odd.bin')
+            # a file whose size is not a whole number of items: only whole items are taken, nothing is left as trailing bits
+            for dt, w in (('uint16', 16), ('uint5', 5), ('int12', 12), ('uint3', 3), ('float32', 32)):
+                rawf = bytes(rng.randrange(256) for _ in range(rng.randint(1, 7)))          # (an empty file cannot be mapped: ValueError, documented)
+                with open(p_odd, 'wb') as fh:
+                    fh.write(rawf)
+                whole = (8 * len(rawf)) // w
+                for n_req in (None, whole, whole + 3, max(0, whole - 1), 0):
+                    evals += 1
+                    c = Array(dt)
+                    try:
+                        with open(p_odd, 'rb') as fh:
+                            c.fromfile(fh, n_req) if n_req is not None else c.fromfile(fh)
+                        okf = n_req is None or n_req <= whole
+                    except EOFError:
+                        okf = n_req is not None and n_req > whole
+                    exp_items = whole if (n_req is None or n_req > whole) else n_req
+                    bits_all = ''.join(format(x, '08b') for x in rawf)
+                    if not okf or len(c) != exp_items or len(c.trailing_bits) != 0 or c.data.bin != bits_all[:exp_items * w]:
+                        fails.append({'call': f"Array({dt!r}).fromfile(<{len(rawf)}-byte file>, {n_req})", 'observed': f'{len(c)} items, {len(c.trailing_bits)} trailing bits',
+                                      'expected': f'{exp_items} items, no trailing bits', 'python': "FAILS = True"})
+                        break
             if len(vals):
                 b2 = Array('uint16')
                 try:
